@@ -10,12 +10,16 @@ fn usage() -> ! {
 macro_rules! dispatch {
     ($id:expr, $f:ident, $($arg:expr),*) => {
         match $id {
+            "C02" => $f(&props::c02::C02, $($arg),*),
+            "C08" => $f(&props::c08::C08, $($arg),*),
+            "C09" => $f(&props::c09::C09, $($arg),*),
             "C10" => $f(&props::c10::C10, $($arg),*),
             "C12" => $f(&props::c12::C12, $($arg),*),
             "C13" => $f(&props::c13::C13, $($arg),*),
             "C14" => $f(&props::c14::C14, $($arg),*),
             "C15" => $f(&props::c15::C15, $($arg),*),
             "C16" => $f(&props::c16::C16, $($arg),*),
+            "C17" => $f(&props::c17::C17, $($arg),*),
             other => {
                 eprintln!("unknown property id {other}");
                 2
